@@ -56,7 +56,10 @@ def main() -> int:
         if not DRIVER.exists():
             # the driver itself does not build: nothing dynamic can run against the Spec
             raise fw.InfraError("Lean driver does not build:\n" + ctx.lean.log[-3000:])
-        spec["run"](ctx)
+        try:
+            spec["run"](ctx)
+        except fw.EnoughEvidence as e:
+            print(f"note: {e}", file=sys.stderr)
         return fw.finish(ctx, spec)
     except fw.InfraError as e:
         print(f"INFRASTRUCTURE FAILURE {a.prop}: {e}", file=sys.stderr)
